@@ -26,12 +26,15 @@ EXPLANATION = (
 
 ASSUMPTIONS = [
     "bounds: 9 slots (never more live blocks than the depth bound); sizes {1,32,33,64,65,256,257,512,513,700}; the full "
-    "ten-size alphabet (every (old,new) realloc pair incl. 0 and NULL) is explored to depth 5 (quick) / 6 (4096-byte page) "
-    "/ 7 (2048-byte page) because it has ~100 symbols; the page mechanics (exhaustion, turn-over, free-list purge when a "
-    "page goes back) are explored with sub-alphabets: {257,512,513} to depth 8/9 on both page sizes (bin 512 turns a "
-    "2048-byte page over after 3 blocks) single- and multi-threaded-flag, {512} on 4096 and {256} on 2048 (7 blocks per "
-    "page) to depth 12/14.  Bins are independent objects in allocator_sba.c (no shared state except the parent), which "
-    "is why per-bin sub-alphabets lose nothing but cross-bin interleavings deeper than the full-alphabet bound",
+    "ten-size alphabet (every (old,new) realloc pair incl. 0 and NULL, ~100 symbols) is explored to depth 5 (quick) / 6 "
+    "(thorough) on both page sizes; the page mechanics (exhaustion, turn-over, free-list purge when a page goes back, "
+    "page address reuse) are explored with sub-alphabets: {257,512,513} to depth 8 (quick, 4096) / 9 (quick, 2048; bin 512 "
+    "turns a 2048-byte page over after 3 blocks) / 9-10 (thorough), also with multi_threaded=true; {512} on 4096 and "
+    "{256} on 2048 (7 blocks per page) to depth 10 / 14; {512,513} on 2048 with an address-sensitive canon (real pool "
+    "addresses + the pool's LIFO stack, so that pages handed out at recycled addresses are new transitions) to depth "
+    "10 / 12.  Bins are independent objects in allocator_sba.c (no shared "
+    "state except the parent), so per-bin sub-alphabets lose only cross-bin interleavings deeper than the full-alphabet "
+    "bound.  No fixpoint: every model is depth-bounded",
     "multi_threaded=true is exercised on one thread only here (locks taken and released, never contended)",
     "a block's size class is the bin of the page that serves it (read from the page header); a parent block shrunk in "
     "place below 513 bytes stays a parent block and does not count as active",
